@@ -42,12 +42,13 @@ CHECKS = {
         "parts": [
             {"module": "rueidis", "scenario": "pipe-mix", "quick": 24000, "thorough": 1200000},
             {"module": "rueidis", "scenario": "at-most-once", "variant": "lifetime", "quick": 3000, "thorough": 100000},
+            {"module": "rueidis", "scenario": "queue-real", "quick": 4000, "thorough": 300000},
         ],
         "expected_probes": ["reply-split-across-reads", "cancel-during-call", "push-frames-on-wire"],
         "components": {"real": REAL, "stubs": STUBS},
         "assumptions": [
             "fakeredis and the VTAG reply generator are correct (replies are a pure function of argv, so attribution is by construction)",
-            "ring configurations that can fill while the write buffer is small are excluded here (known finding under C02)",
+            "ring configurations that can fill while the write buffer is small are excluded from pipe-mix (known finding under C02); the queue-real part (whole pipe under line-by-line scheduling of ring.go / flowbuffer.go, more callers than slots) applies the same reply oracle",
             "runs whose plan contains deadlines or cancellations tolerate connection-level errors on other calls; plans without them do not",
         ],
     },
